@@ -14,7 +14,7 @@ from engine.symreal.shim import installed
 from engine.vsym import build
 
 from . import pyh
-from .common import Part, Q, Report, approx_equal, finish, pmap, quiet, tier_timeout_ms, write_replay
+from .common import Part, Q, Report, approx_equal, finish, pmap, quiet, solve, tier_timeout_ms, write_replay
 from .cpph import CppFilter
 from .oblig import prove_equal, reach
 
@@ -278,18 +278,29 @@ def model_task(p, tier, seed):
 
         ls = explore(harness, assumes=assumes)
         part.leaves(ls)
-        if len(ls) != 1 or ls[0].status != "ok":
+        if not ls or any(l_.status != "ok" for l_ in ls):
             part.harness_error(f"{p.id}/py-model/cse={cse}: {ls}")
             return part.d
-        outs[cse] = ls[0].value
+        outs[cse] = ls
     ss = p.s_state()
-    part.extra("py_model_temporaries", outs[True][1])
-    for i, s_ in enumerate(ss):
+    part.extra("py_model_temporaries", outs[True][0].value[1])
+    multi = len(outs[True]) > 1 or len(outs[False]) > 1
+    matched = 0
+    for a_i, on in enumerate(outs[True]):
+        for b_i, off in enumerate(outs[False]):
+            pa = assumes + on.pc + off.pc
+            if multi and solve(pa, 5000).status == "unsat":
+                continue
+            matched += 1
+            for i, s_ in enumerate(ss):
 
-        def replay(e, s_=s_):
-            return {"impl": c01.concrete_model(p, True, e)[s_], "spec": c01.concrete_model(p, False, e)[s_]}
+                def replay(e, s_=s_):
+                    return {"impl": c01.concrete_model(p, True, e)[s_], "spec": c01.concrete_model(p, False, e)[s_]}
 
-        prove_equal(part, PID, f"{p.id}/py-model/{s_}: cse-on == cse-off", lift(outs[True][0].data[i, 0]), lift(outs[False][0].data[i, 0]), assumes, tmo, replay=replay, key=f"{p.id}/py-model/{s_}", info={"kind": "py-model", "program": p.id, "output": s_}, all_vars=env)
+                tag = f"/path{a_i}x{b_i}" if multi else ""
+                prove_equal(part, PID, f"{p.id}/py-model{tag}/{s_}: cse-on == cse-off", lift(on.value[0].data[i, 0]), lift(off.value[0].data[i, 0]), pa, tmo, replay=replay, key=f"{p.id}/py-model/{s_}", info={"kind": "py-model", "program": p.id, "output": s_}, all_vars=env)
+    if matched == 0:
+        part.harness_error(f"{p.id}/py-model: no jointly feasible pair of paths")
     # C++ Model mode
     cfs = {}
     try:
@@ -305,22 +316,34 @@ def model_task(p, tier, seed):
                 part.violation(f"{p.id}/cpp-model/compile", f"generated C++ Model (cse={cse}) does not compile", path)
                 return part.d
             leaves, _ = cf.run("")
-            res[cse] = leaves[0].out
-        for nm in res[True]:
+            part.d["paths"]["leaves"] += len(leaves)
+            res[cse] = leaves
+        multi = len(res[True]) > 1 or len(res[False]) > 1
+        matched = 0
+        for on in res[True]:
+            for off in res[False]:
+                pa = assumes + on.pc + off.pc
+                if multi and solve(pa, 5000).status == "unsat":
+                    continue
+                matched += 1
+                for nm in on.out:
 
-            def replay(e, nm=nm):
-                e = dict(e)
-                for v in env:
-                    e.setdefault(v, 0.5)
-                a_, _, _ = cfs[True].run_concrete("", e)
-                b_, _, _ = cfs[False].run_concrete("", e)
-                return {"impl": a_[nm], "spec": b_[nm]}
+                    def replay(e, nm=nm):
+                        e = dict(e)
+                        for v in env:
+                            e.setdefault(v, 0.5)
+                        a_, _, _ = cfs[True].run_concrete("", e)
+                        b_, _, _ = cfs[False].run_concrete("", e)
+                        return {"impl": a_[nm], "spec": b_[nm]}
 
-            prove_equal(part, PID, f"{p.id}/cpp-model/{nm}: cse-on == cse-off", res[True][nm], res[False][nm], assumes, tmo, replay=replay, key=f"{p.id}/cpp-model/{nm}", info={"kind": "cpp-model", "program": p.id, "output": nm}, all_vars=env)
+                    tag = f"/path{on.decisions}x{off.decisions}" if multi else ""
+                    prove_equal(part, PID, f"{p.id}/cpp-model{tag}/{nm}: cse-on == cse-off", on.out[nm], off.out[nm], pa, tmo, replay=replay, key=f"{p.id}/cpp-model/{nm}", info={"kind": "cpp-model", "program": p.id, "output": nm}, all_vars=env)
+        if matched == 0:
+            part.harness_error(f"{p.id}/cpp-model: no jointly feasible pair of paths")
     finally:
         for cf in cfs.values():
             cf.__exit__(None, None, None)
-    part.sample({"program": p.id, "backend": "python+c++ Model", "temporaries": outs[True][1]})
+    part.sample({"program": p.id, "backend": "python+c++ Model", "temporaries": outs[True][0].value[1]})
     return part.d
 
 
@@ -337,7 +360,7 @@ def _dispatch(fn, args):
 def run(tier, seed):
     rep = Report(PID, tier, seed, "translation_validation")
     ps = programs_for(tier, seed)
-    tasks = [(py_task, (p, tier, seed)) for p in ps] + [(cpp_task, (p, tier, seed)) for p in ps] + [(model_task, (CP.P11(), tier, seed))]
+    tasks = [(py_task, (p, tier, seed)) for p in ps] + [(cpp_task, (p, tier, seed)) for p in ps] + [(model_task, (CP.P11(), tier, seed)), (model_task, (CP.P18(), tier, seed))]
     for d in pmap(_dispatch, tasks):
         rep.merge(d)
     rep.bounds = {"programs": [p.id for p in ps], "inputs": "all reals where the expressions are defined", "outside": "floating-point rounding (CSE/simplify may legitimately reassociate)"}
@@ -354,12 +377,12 @@ def replay(path):
     with open(path) as f:
         r = json.load(f)
     info = r["info"]
-    ps = {p.id: p for p in programs_for("thorough", int(r.get("seed", 0))) + programs_for("quick", 0)}
+    ps = {p.id: p for p in programs_for("thorough", int(r.get("seed", 0))) + programs_for("quick", 0) + [CP.P11(), CP.P18()]}
     p = ps[info["program"]]
     if info["kind"] in ("py-model", "cpp-model", "cpp-model-compile"):
         from . import c01
 
-        p = CP.P11()
+        p = {q.id: q for q in (CP.P11(), CP.P18())}[info["program"]]
         if info["kind"] == "py-model":
             a, b = c01.concrete_model(p, True, r["inputs"]), c01.concrete_model(p, False, r["inputs"])
             bad = [k for k in a if not approx_equal(a[k], b[k])]
